@@ -22,7 +22,7 @@ ASSUMPTIONS = [
 ]
 MONITORS = ("independent walk + lstat/readlink/inode of the workspace; audit-hook recorder proving zero filesystem mutations in "
             "workspace and cache during the second checkout; byte snapshot of the cache; link record checked through get_unused_links")
-REQUIRED_COUNTERS = ["sequences", "second_checkouts_audited", "relinks_checked", "files_link_type_checked", "cache_snapshots_compared",
+REQUIRED_COUNTERS = ["priors_with_foreign_hardlinks", "sequences", "second_checkouts_audited", "relinks_checked", "files_link_type_checked", "cache_snapshots_compared",
                      "link_records_checked", "pair/copy->hardlink", "pair/hardlink->symlink", "pair/symlink->copy", "pair/copy->symlink",
                      "pair/hardlink->copy", "pair/symlink->hardlink", "store/local", "store/base", "single_file_cases"]
 
@@ -88,8 +88,26 @@ def run_shard(ctx):
                                 os.unlink(p)
             else:
                 prior_files = {}
+            # some prior files are hard links to a file *outside* the cache (cp -l, a dedup tool, an older cache)
+            foreign = 0
+            if not single and rng.random() < 0.4:
+                els = os.path.join(d, "elsewhere")
+                os.makedirs(els, exist_ok=True)
+                for j, (k, v) in enumerate(sorted(prior_files.items())):
+                    if v and rng.random() < 0.5:
+                        src = os.path.join(els, f"e{j}")
+                        with open(src, "wb") as f:
+                            f.write(v)
+                        p = os.path.join(ws, *k)
+                        if os.path.lexists(p):
+                            os.unlink(p)
+                        os.makedirs(os.path.dirname(p), exist_ok=True)
+                        os.link(src, p)
+                        foreign += 1
+                if foreign:
+                    res.count("priors_with_foreign_hardlinks")
             cfg = {"store": cls, "existing": existing, "configured": configured, "state": use_state, "single": single,
-                   "target": sorted("/".join(k) for k in T), "prior": sorted("/".join(k) for k in prior_files), "ext4": case % 9 == 4}
+                   "target": sorted("/".join(k) for k in T), "prior": sorted("/".join(k) for k in prior_files), "ext4": case % 9 == 4, "foreign_hardlinks": foreign}
             res.evaluated()
             res.count("sequences")
             if prior_files != T or existing != configured:
